@@ -123,8 +123,9 @@ static void doOp(const Op& op) {
   auto faulted = [&]() { return simfs::faultCount() != faults0; };
   switch (op.code) {
   case F_OPEN: {
-    static const unsigned fl[] = {File::readFlag, File::writeFlag, File::readFlag | File::writeFlag, File::writeFlag | File::appendFlag, File::writeFlag | File::openFlag, File::readFlag | File::writeFlag | File::openFlag, File::readFlag | File::writeFlag | File::appendFlag};
-    unsigned flags = fl[op.a[2] % 7]; std::string nm = names[op.a[1] % NNAMES];
+    static const unsigned fl[] = {File::readFlag, File::writeFlag, File::readFlag | File::writeFlag, File::writeFlag | File::appendFlag, File::writeFlag | File::openFlag, File::readFlag | File::writeFlag | File::openFlag, File::readFlag | File::writeFlag | File::appendFlag,
+      File::writeFlag | File::appendFlag | File::openFlag, File::readFlag | File::writeFlag | File::appendFlag | File::openFlag, File::readFlag | File::openFlag, File::readFlag | File::appendFlag, File::readFlag | File::appendFlag | File::openFlag};   /* every combination of the four flags that names a direction */
+    unsigned flags = fl[op.a[2] % 12]; std::string nm = names[op.a[1] % NNAMES];
     if (op.a[3] % 12 == 0) { nm = "fifo"; static const unsigned ff[] = {File::readFlag | File::writeFlag | File::appendFlag, File::readFlag | File::writeFlag | File::openFlag, File::readFlag | File::writeFlag | File::appendFlag | File::openFlag}; flags = ff[(op.a[3] / 12) % 3]; probe("open_fifo"); }
     { Host h; if (simfs::rStatIsDir(T(nm).c_str())) return; }   // opening a directory as a file is outside the property (lseek on a directory descriptor is file-system specific)
     closeSlot(sl);
